@@ -12,8 +12,9 @@
    method, any user names, any signature data) and every interleaving with asynchronous completion, in
    any order (the real event loop is FIFO; the theorems allow any order).
 
-   [fixed = false] is the code as it is in /repo; [fixed = true] is the code with the repair described at
-   the end of Model/Auth.v.  The unrepaired model VIOLATES soundness, once and restrictions (the
+   [fixed = true] is the code in /repo (since repair 208592d, described at the end of Model/Auth.v) and the
+   variant tied to the implementation by the correspondence; [fixed = false] is the code BEFORE the repair.
+   The model of the old code VIOLATES soundness, once and restrictions (the
    `_refuted` theorems; each witness is replayed against the real implementation by the harness). *)
 From AV Require Import Base.Prelude Model.Auth Proofs.AuthProofs.
 
@@ -31,7 +32,7 @@ Theorem C05_sound : forall w sid evs,
 Proof. exact sound_fixed. Qed.
 Print Assumptions C05_sound.
 
-(* The code as it is violates this.  Witness 1 (DESIGN 10-3): begin_auth is asynchronous, guest needs no
+(* The code before repair 208592d violated this.  Witness 1 (DESIGN 10-3): begin_auth is asynchronous, guest needs no
    authentication, nobody has any valid credential; request(guest), request(root), then begin_auth(guest)
    completes: the session is authenticated as root. *)
 Theorem C05_sound_refuted : exists w sid evs,
@@ -89,7 +90,7 @@ Theorem C05_once : forall w sid evs,
 Proof. exact once_fixed. Qed.
 Print Assumptions C05_once.
 
-(* The code as it is sends a second USERAUTH_SUCCESS: alice's password check is pending when guest (no
+(* The code before the repair sent a second USERAUTH_SUCCESS: alice's password check is pending when guest (no
    authentication needed) is let in; the orphaned check then completes. *)
 Theorem C05_once_refuted : exists w sid evs,
   let s := run w sid false evs in count_success (out s) = 2%nat /\ length (completed_as s) = 2%nat.
@@ -140,7 +141,7 @@ Theorem C05_restrictions : forall w sid evs,
 Proof. exact restrictions_fixed. Qed.
 Print Assumptions C05_restrictions.
 
-(* The code as it is violates this: a QUERY (no signature needed) with a certificate carrying
+(* The code before the repair violated this: a QUERY (no signature needed) with a certificate carrying
    force-command leaves _cert_options set; when a plain key with its own command= is accepted afterwards
    the certificate's forced command is the one enforced. *)
 Theorem C05_restrictions_refuted : exists w sid evs,
